@@ -1,18 +1,18 @@
 // C26: cds::bitop::bit_reverse_counter (the heap slot counter of MSPriorityQueue).
 //
-// Sequential harness. A case is a Dyck-like word over inc/dec (never dec below 0), with
-// "ramp" ops that move the count next to a power of two so that words hover around the
-// level boundaries of the heap.
+// Sequential harness. A case is a Dyck-like word over inc/dec (never dec below 0).
+// "ramp" ops restart from a fresh counter and go straight up to a count next to a power of
+// two (2^k + b - 16, k <= 20), so that the following inc/dec ops hover around the level
+// boundaries of the heap.
 //
-// Oracle (stack of snapshots + bitmap of outstanding slots):
+// Oracle (stack of snapshots + map of outstanding slots):
 //   inc at count n-1 -> n (h = floor(log2 n), the bottom heap level):
 //     * value() == n, the returned slot == reversed_value()
 //     * the slot lies in level h: 2^h <= slot < 2^(h+1)
 //     * the slot is not outstanding (returned by an earlier inc and not yet undone)
 //     * its heap parent slot/2 is outstanding (all levels above the bottom one are full)
 //       => the outstanding set is {1..2^h-1} plus n-2^h+1 distinct slots of level h; it is
-//          exactly {1..n} whenever n = 2^k-1 (verified by an explicit scan for n < 4096 and
-//          in the `ramp` enumeration for every k).
+//          exactly {1..n} whenever n = 2^k-1 (also verified by an explicit scan)
 //     * reference model: slot == 2^h | reverse_h( n - 2^h ), high_bit() == h
 //   dec at count n -> n-1:
 //     * returns the slot produced by the most recent inc that is not yet undone
@@ -20,7 +20,13 @@
 //
 // NB the literal sentence "the first n slots are a permutation of 1..n for every n" is not
 // what a bit-reversed counter does (the first five slots are 1,2,3,4,6): it holds at full
-// levels only; the harness asserts the level-wise statement above.
+// levels n = 2^k-1 only; the harness asserts the level-wise statement above.
+//
+// Cost: the word inc^T of a ramp is evaluated (fully checked) once per process and variant
+// and memoised ("prefix run": the counter object after every i <= T increments and the owner
+// of every slot); a case that ramps to T continues from a copy of the counter after inc^T.
+// The verdict of a case is still a pure function of the case: it fails at the ramp iff
+// inc^T violates a check.
 #include "common.h"
 
 #include <cds/details/bit_reverse_counter.h>
@@ -33,10 +39,9 @@ namespace {
 
     constexpr unsigned kMaxK = 20;
     constexpr uint64_t kMaxCount = ( uint64_t( 1 ) << kMaxK ) + 64;     // highest count a case can reach
-    constexpr uint64_t kBitmapSize = uint64_t( 1 ) << ( kMaxK + 2 );    // every legal slot at counts <= kMaxCount is below this
-    constexpr uint64_t kStepBudget = ( uint64_t( 1 ) << ( kMaxK + 1 )) + ( uint64_t( 1 ) << 16 );
+    constexpr uint64_t kSlotLimit = uint64_t( 1 ) << ( kMaxK + 1 );     // every legal slot at counts <= kMaxCount is below this
 
-    enum { OP_INC = 0, OP_DEC = 1, OP_RAMP = 2 };
+    enum { OP_INC = 0, OP_DEC = 1, OP_RAMP = 2, OP_DRAIN = 3 };
 
     inline int floor_log2( uint64_t n ) { return 63 - __builtin_clzll( n ); }
 
@@ -66,32 +71,146 @@ namespace {
         int high;
     };
 
-    // shared scratch memory (cleared by draining at the end of every run)
-    std::vector<uint8_t>& bitmap()
+    // checks on the result of the m-th net increment that do not need the outstanding set
+    template <typename Counter>
+    bool check_inc_result( Counter const& ctr, uint64_t slot, uint64_t m, std::string& msg )
     {
-        static std::vector<uint8_t> b( kBitmapSize, 0 );
+        int h = floor_log2( m );
+        if ( uint64_t( ctr.value()) != m ) {
+            msg = "inc: value() = " + std::to_string( uint64_t( ctr.value())) + ", expected " + std::to_string( m );
+            return false;
+        }
+        if ( uint64_t( ctr.reversed_value()) != slot ) {
+            msg = "inc returned slot " + hex( slot ) + " but reversed_value() = " + hex( uint64_t( ctr.reversed_value()));
+            return false;
+        }
+        if ( slot < ( uint64_t( 1 ) << h ) || slot >= ( uint64_t( 2 ) << h )) {
+            msg = "inc: slot " + hex( slot ) + " for item #" + std::to_string( m ) + " is outside the bottom heap level " + std::to_string( h ) + " = [" + hex( uint64_t( 1 ) << h )
+                  + ", " + hex( uint64_t( 2 ) << h ) + "): the outstanding slots cannot be {1..n} at the next full level";
+            return false;
+        }
+        return true;
+    }
+    template <typename Counter>
+    bool check_inc_reference( Counter const& ctr, uint64_t slot, uint64_t m, std::string& msg )
+    {
+        int h = floor_log2( m );
+        if ( slot != ref_slot( m ) || ctr.high_bit() != h ) {
+            msg = "inc: item #" + std::to_string( m ) + " got slot " + hex( slot ) + " high_bit " + std::to_string( ctr.high_bit())
+                  + ", reference (bit-reversed position within the level) is " + hex( ref_slot( m )) + " high_bit " + std::to_string( h );
+            return false;
+        }
+        return true;
+    }
+
+    // ---- memoised evaluation of the words inc^T ------------------------------------------
+    template <typename C>
+    struct Prefix {
+        typedef cds::bitop::bit_reverse_counter<C> counter;
+        std::vector<counter> at;        // at[i] = counter object after i increments of a fresh counter
+        std::vector<uint32_t> owner;    // owner[slot] = i when the i-th increment returned slot, 0 = never returned
+        counter run;
+        uint64_t fail_at = 0;           // inc^fail_at violates a check
+        std::string fail_msg;
+
+        Prefix()
+            : owner( kSlotLimit, 0 )
+        {
+            at.push_back( run );
+        }
+        static Prefix& get()
+        {
+            static Prefix p;
+            return p;
+        }
+        uint64_t size() const { return at.size() - 1; }
+
+        // true when inc^T is evaluated and holds
+        bool ensure( uint64_t T )
+        {
+            while ( size() < T && !fail_at ) {
+                uint64_t m = size() + 1;
+                uint64_t slot = uint64_t( run.inc());
+                std::string msg;
+                bool ok = check_inc_result( run, slot, m, msg );
+                if ( ok && owner[slot] ) {
+                    msg = "inc: slot " + hex( slot ) + " for item #" + std::to_string( m ) + " was already returned for item #" + std::to_string( owner[slot] ) + " and not undone";
+                    ok = false;
+                }
+                if ( ok && slot > 1 && !owner[slot >> 1] ) {
+                    msg = "inc: slot " + hex( slot ) + " for item #" + std::to_string( m ) + " has no outstanding parent slot " + hex( slot >> 1 );
+                    ok = false;
+                }
+                if ( ok )
+                    ok = check_inc_reference( run, slot, m, msg );
+                if ( ok ) {
+                    owner[slot] = uint32_t( m );
+                    if (( m & ( m + 1 )) == 0 )
+                        for ( uint64_t i = 1; i <= m && ok; ++i )
+                            if ( !owner[i] ) {
+                                msg = "after " + std::to_string( m ) + " increments slot " + std::to_string( i ) + " was never returned: the slots are not a permutation of 1.." + std::to_string( m );
+                                ok = false;
+                            }
+                }
+                if ( !ok ) {
+                    fail_at = m;
+                    fail_msg = msg + " [word inc^" + std::to_string( m ) + " on a fresh counter]";
+                    break;
+                }
+                at.push_back( run );
+            }
+            return !( fail_at && fail_at <= T );
+        }
+    };
+
+    std::vector<uint8_t>& local_bitmap()
+    {
+        static std::vector<uint8_t> b( kSlotLimit, 0 );
         return b;
     }
-    std::vector<Snap>& snaps()
+    std::vector<Snap>& local_stack()
     {
         static std::vector<Snap> s;
         return s;
     }
 
+    // state: fresh counter + inc^p (memoised) + the increments in `st` that are not yet undone
     template <typename C>
     struct Checker {
         typedef cds::bitop::bit_reverse_counter<C> counter;
         counter ctr;
-        std::vector<uint8_t>& bm = bitmap();
-        std::vector<Snap>& st = snaps();
-        uint64_t n = 0;             // model count
+        Prefix<C>& pre = Prefix<C>::get();
+        std::vector<uint8_t>& bm = local_bitmap();
+        std::vector<Snap>& st = local_stack();
+        uint64_t p = 0;             // length of the memoised part of the stack
+        uint64_t n = 0;             // model count = p + st.size()
         uint64_t steps = 0;
-        bool full_scan = false;     // scan the whole bitmap at every full level
         // what happened (non-trivial rule, classes)
         uint64_t cross_up = 0, cross_down = 0, inc_after_dec = 0, full_levels = 0;
         bool seen_dec = false;
 
-        std::string where() const { return " [step " + std::to_string( steps ) + ", count before " + std::to_string( n ) + "]"; }
+        std::string where() const { return " [library call #" + std::to_string( steps ) + " of the case, count before it " + std::to_string( n ) + "]"; }
+
+        bool outstanding( uint64_t slot ) const
+        {
+            if ( slot >= kSlotLimit )
+                return false;
+            return bm[slot] || ( pre.owner[slot] && pre.owner[slot] <= p );
+        }
+
+        // restart: fresh counter, then inc^T
+        bool restart( uint64_t T )
+        {
+            cleanup();
+            if ( !pre.ensure( T )) {
+                fail( pre.fail_msg );
+                return false;
+            }
+            ctr = pre.at[T];
+            p = n = T;
+            seen_dec = false;
+            return true;
+        }
 
         bool inc_step()
         {
@@ -99,48 +218,38 @@ namespace {
             uint64_t slot = uint64_t( ctr.inc());
             ++steps;
             uint64_t m = n + 1;
-            int h = floor_log2( m );
             s.slot = slot;
-            if ( uint64_t( ctr.value()) != m ) {
-                fail( "inc: value() = " + std::to_string( uint64_t( ctr.value())) + ", expected " + std::to_string( m ) + where());
+            std::string msg;
+            if ( !check_inc_result( ctr, slot, m, msg )) {
+                fail( msg + where());
                 return false;
             }
-            if ( uint64_t( ctr.reversed_value()) != slot ) {
-                fail( "inc returned slot " + hex( slot ) + " but reversed_value() = " + hex( uint64_t( ctr.reversed_value())) + where());
+            if ( outstanding( slot )) {
+                fail( "inc: slot " + hex( slot ) + " for item #" + std::to_string( m ) + " is already outstanding (returned by an earlier inc and not undone)" + where());
                 return false;
             }
-            if ( slot < ( uint64_t( 1 ) << h ) || slot >= ( uint64_t( 2 ) << h )) {
-                fail( "inc: slot " + hex( slot ) + " for item #" + std::to_string( m ) + " is outside the bottom heap level " + std::to_string( h )
-                      + " = [" + hex( uint64_t( 1 ) << h ) + ", " + hex( uint64_t( 2 ) << h ) + "): outstanding slots are not {1..n} at the next full level" + where());
-                return false;
-            }
-            if ( bm[slot] ) {
-                fail( "inc: slot " + hex( slot ) + " for item #" + std::to_string( m ) + " is already outstanding (returned twice)" + where());
-                return false;
-            }
-            if ( slot > 1 && !bm[slot >> 1] ) {
+            if ( slot > 1 && !outstanding( slot >> 1 )) {
                 fail( "inc: slot " + hex( slot ) + " for item #" + std::to_string( m ) + " has no outstanding parent slot " + hex( slot >> 1 ) + where());
                 return false;
             }
-            if ( slot != ref_slot( m ) || ctr.high_bit() != h ) {
-                fail( "inc: item #" + std::to_string( m ) + " got slot " + hex( slot ) + " high_bit " + std::to_string( ctr.high_bit())
-                      + ", reference (bit-reversed position within level) is " + hex( ref_slot( m )) + " high_bit " + std::to_string( h ) + where());
+            if ( !check_inc_reference( ctr, slot, m, msg )) {
+                fail( msg + where());
                 return false;
             }
             bm[slot] = 1;
             st.push_back( s );
             if ( seen_dec )
                 ++inc_after_dec;
-            if ( n > 0 && floor_log2( n ) != h )
+            if ( n > 0 && floor_log2( n ) != floor_log2( m ))
                 ++cross_up;
             n = m;
             if (( m & ( m + 1 )) == 0 ) {
                 // n = 2^k - 1: the outstanding set must be exactly {1..n}
                 ++full_levels;
-                if ( full_scan || m < 4096 ) {
+                if ( m < 2048 ) {
                     for ( uint64_t i = 1; i <= m; ++i )
-                        if ( !bm[i] ) {
-                            fail( "after " + std::to_string( m ) + " net increments slot " + std::to_string( i ) + " is not outstanding: slots are not a permutation of 1.." + std::to_string( m ) + where());
+                        if ( !outstanding( i )) {
+                            fail( "after " + std::to_string( m ) + " net increments slot " + std::to_string( i ) + " is not outstanding: the slots are not a permutation of 1.." + std::to_string( m ) + where());
                             return false;
                         }
                 }
@@ -151,21 +260,33 @@ namespace {
         bool dec_step()
         {
             // precondition (MSPriorityQueue::pop checks value() first): n > 0
-            Snap s = st.back();
+            Snap s;
+            bool local = !st.empty();
+            if ( local )
+                s = st.back();
+            else {
+                // the p-th increment of the memoised run
+                auto const& before = pre.at[p - 1];
+                s = Snap{ uint64_t( pre.at[p].reversed_value()), uint64_t( before.value()), uint64_t( before.reversed_value()), before.high_bit() };
+            }
             uint64_t ret = uint64_t( ctr.dec());
             ++steps;
             if ( ret != s.slot ) {
-                fail( "dec at count " + std::to_string( n ) + " returned slot " + hex( ret ) + ", the most recent inc produced " + hex( s.slot ) + where());
+                fail( "dec at count " + std::to_string( n ) + " returned slot " + hex( ret ) + ", the most recent inc not yet undone produced " + hex( s.slot ) + where());
                 return false;
             }
             if ( uint64_t( ctr.value()) != s.value || uint64_t( ctr.reversed_value()) != s.rev || ctr.high_bit() != s.high ) {
-                fail( "dec at count " + std::to_string( n ) + " does not undo the inc exactly: value/reversed/high_bit = " + std::to_string( uint64_t( ctr.value())) + "/"
-                      + hex( uint64_t( ctr.reversed_value())) + "/" + std::to_string( ctr.high_bit()) + ", before that inc " + std::to_string( s.value ) + "/" + hex( s.rev )
+                fail( "dec at count " + std::to_string( n ) + " does not undo the inc exactly: value/reversed_value/high_bit = " + std::to_string( uint64_t( ctr.value())) + "/"
+                      + hex( uint64_t( ctr.reversed_value())) + "/" + std::to_string( ctr.high_bit()) + ", before that inc they were " + std::to_string( s.value ) + "/" + hex( s.rev )
                       + "/" + std::to_string( s.high ) + where());
                 return false;
             }
-            bm[ret] = 0;
-            st.pop_back();
+            if ( local ) {
+                bm[ret] = 0;
+                st.pop_back();
+            }
+            else
+                --p;
             seen_dec = true;
             if ( n > 1 && floor_log2( n ) != floor_log2( n - 1 ))
                 ++cross_down;
@@ -173,7 +294,7 @@ namespace {
             return true;
         }
 
-        // harness-side clean-up (not a library call)
+        // harness-side clean-up (no library call)
         void cleanup()
         {
             for ( Snap const& s : st )
@@ -185,11 +306,15 @@ namespace {
 
     inline uint64_t ramp_target( int k, int b )
     {
+        if ( k < 0 )
+            k = 0;
+        if ( k > int( kMaxK ))
+            k = int( kMaxK );
         int64_t t = ( int64_t( 1 ) << k ) + b - 16;
         if ( t < 0 )
             t = 0;
-        if ( uint64_t( t ) > kMaxCount )
-            t = int64_t( kMaxCount );
+        if ( uint64_t( t ) > kMaxCount - 64 )
+            t = int64_t( kMaxCount - 64 );
         return uint64_t( t );
     }
 
@@ -199,10 +324,6 @@ namespace {
         for ( Op const& op : ops ) {
             if ( failed())
                 break;
-            if ( ck.steps >= kStepBudget ) {
-                note_class( "budget_skip" );
-                break;
-            }
             switch ( op.code ) {
             case OP_INC:
                 for ( int i = 0; i <= op.a && !failed() && ck.n < kMaxCount; ++i )
@@ -212,13 +333,16 @@ namespace {
                 for ( int i = 0; i <= op.a && !failed() && ck.n > 0; ++i )
                     ck.dec_step();
                 break;
-            default: {
-                uint64_t t = ramp_target( op.a < 0 ? 0 : op.a > int( kMaxK ) ? int( kMaxK ) : op.a, op.b );
-                while ( ck.n < t && !failed())
-                    ck.inc_step();
-                while ( ck.n > t && !failed())
-                    ck.dec_step();
+            case OP_RAMP:
+                ck.restart( ramp_target( op.a, op.b ));
                 note_class( "ramp" );
+                break;
+            default: {
+                // drain: up to 2^a decrements
+                uint64_t cnt = uint64_t( 1 ) << ( op.a < 0 ? 0 : op.a > 21 ? 21 : op.a );
+                for ( uint64_t i = 0; i < cnt && !failed() && ck.n > 0; ++i )
+                    ck.dec_step();
+                note_class( "drain" );
                 break;
             }
             }
@@ -235,22 +359,20 @@ namespace {
     }
 
     template <typename C>
-    Verdict run_brc( Case const& c, bool full_scan )
+    Verdict run_brc( Case const& c )
     {
         case_reset();
         Checker<C> ck;
-        ck.full_scan = full_scan;
         if ( !c.prog.empty())
             interpret( ck, c.prog[0] );
         // the rule looks at the generated word only, not at the final drain
         bool nontrivial = ck.cross_down > 0 && ck.inc_after_dec > 0;
-        // final drain through the library: every outstanding inc is undone exactly
-        if ( !failed()) {
-            while ( ck.n > 0 && !failed())
-                ck.dec_step();
-            if ( !failed() && ( ck.ctr.value() != 0 || ck.ctr.reversed_value() != 0 || ck.ctr.high_bit() != -1 ))
-                fail( "after undoing every inc the counter is not in its initial state" );
-        }
+        // final drain through the library (bounded: long descents are the job of the drain op / `ramp` enumeration)
+        for ( int i = 0; i < 200 && ck.n > 0 && !failed(); ++i )
+            ck.dec_step();
+        if ( !failed() && ck.n == 0 && ( ck.ctr.value() != 0 || ck.ctr.reversed_value() != 0 || ck.ctr.high_bit() != -1 ))
+            fail( "after undoing every inc the counter is not in its initial state (value/reversed_value/high_bit = " + std::to_string( uint64_t( ck.ctr.value())) + "/"
+                  + hex( uint64_t( ck.ctr.reversed_value())) + "/" + std::to_string( ck.ctr.high_bit()) + ")" );
         ck.cleanup();
         if ( ck.cross_up )
             note_class( "cross_up", ck.cross_up );
@@ -264,7 +386,7 @@ namespace {
 
     struct Variant {
         const char* name;
-        Verdict (*run)( Case const&, bool );
+        Verdict (*run)( Case const& );
     };
     const Variant kVariants[] = {
         { "size_t", run_brc<size_t> },
@@ -286,8 +408,7 @@ namespace {
         void visit( uint64_t h )
         {
             ++nodes;
-            bool nontriv = ck.cross_down > 0 && ck.inc_after_dec > 0;
-            if ( nontriv ) {
+            if ( ck.cross_down > 0 && ck.inc_after_dec > 0 ) {
                 ++nt;
                 if ( stats->nt_hashes.size() < kHashCap )
                     stats->nt_hashes.insert( h );
@@ -328,7 +449,10 @@ namespace {
                 auto saved = ck.ctr;
                 uint64_t s_down = ck.cross_down;
                 bool s_seen = ck.seen_dec;
-                Snap s = ck.st.back();
+                bool local = !ck.st.empty();
+                Snap s{};
+                if ( local )
+                    s = ck.st.back();
                 word.push_back( -1 );
                 if ( !ck.dec_step()) {
                     stop = true;
@@ -340,8 +464,12 @@ namespace {
                 if ( stop )
                     return;
                 word.pop_back();
-                ck.st.push_back( s );
-                ck.bm[s.slot] = 1;
+                if ( local ) {
+                    ck.st.push_back( s );
+                    ck.bm[s.slot] = 1;
+                }
+                else
+                    ++ck.p;
                 ck.ctr = saved;
                 ++ck.n;
                 ck.cross_down = s_down;
@@ -350,14 +478,8 @@ namespace {
         }
     };
 
-    // a replayable case: count `base` reached by inc ops, then the word
-    Case word_case( uint64_t base, std::vector<int> const& word )
+    void push_base( std::vector<Op>& p, uint64_t base )
     {
-        Case c;
-        c.harness = "pure_brc";
-        c.variant = 0;
-        c.prog.resize( 1 );
-        auto& p = c.prog[0];
         if ( base > 64 ) {
             // the nearest ramp target below, then single incs
             int k = floor_log2( base );
@@ -376,6 +498,17 @@ namespace {
             p.push_back( Op{ OP_INC, int( r - 1 ), 0 } );
             base -= r;
         }
+    }
+
+    // a replayable case: count `base`, then the word
+    Case word_case( uint64_t base, std::vector<int> const& word )
+    {
+        Case c;
+        c.harness = "pure_brc";
+        c.variant = 0;
+        c.prog.resize( 1 );
+        auto& p = c.prog[0];
+        push_base( p, base );
         for ( size_t i = 0; i < word.size(); ) {
             size_t j = i;
             while ( j < word.size() && word[j] == word[i] && j - i < 64 )
@@ -396,8 +529,10 @@ namespace cdsverif {
             for ( size_t i = 0; i < kNumVariants; ++i )
                 x.variants.push_back( kVariants[i].name );
             x.cfg = {};
-            // inc/dec: a+1 repetitions (dec stops at 0); ramp: move the count to 2^a + b - 16 (clamped to 0..2^20+64)
-            x.ops = { { "inc", 6, 63, 0 }, { "dec", 6, 63, 0 }, { "ramp", 1, int( kMaxK ), 32 } };
+            // inc/dec: a+1 repetitions (dec stops at 0)
+            // ramp:    fresh counter, then inc up to the count 2^a + b - 16 (clamped to 0..2^20)
+            // drain:   up to 2^a decrements (replayed cases may carry a up to 21)
+            x.ops = { { "inc", 12, 63, 0 }, { "dec", 12, 63, 0 }, { "ramp", 3, int( kMaxK ), 32 }, { "drain", 1, 11, 0 } };
             x.sequential = true;
             x.min_threads = 1;
             x.max_threads_quick = 1;
@@ -406,7 +541,7 @@ namespace cdsverif {
             x.max_ops_thorough = 80;
             x.max_preempt_quick = 0;
             x.max_preempt_thorough = 0;
-            x.nontrivial_rule = "before the final drain the word contains >=1 dec that crosses a heap level boundary downwards (count 2^k -> 2^k-1) and >=1 inc executed after a dec";
+            x.nontrivial_rule = "the generated word (final drain excluded) contains >=1 dec that crosses a heap level boundary downwards (count 2^k -> 2^k-1) and >=1 inc executed after a dec";
             return x;
         }();
         return s;
@@ -415,12 +550,12 @@ namespace cdsverif {
     Verdict run_case( Case const& c )
     {
         size_t v = size_t( c.variant ) < kNumVariants ? size_t( c.variant ) : 0;
-        return kVariants[v].run( c, false );
+        return kVariants[v].run( c );
     }
 
     // --extra dyck <maxlen> [<base>]   all words over {inc,dec} of length <= maxlen whose count, started at
-    //                                  <base> (default 0), never drops below 0
-    // --extra ramp [<k>]               inc x 2^k then dec x 2^k (default k = 20), full scans at every 2^j-1
+    //                                  <base> (default 0, reached by inc^base), never drops below 0
+    // --extra ramp [<k>]               inc x 2^k then dec x 2^k then inc (default k = 20), for both counter types
     int harness_extra( int argc, char** argv, RunStats& stats )
     {
         Schema const& s = harness_schema();
@@ -436,28 +571,24 @@ namespace cdsverif {
             Dfs d;
             d.maxlen = maxlen;
             d.stats = &stats;
-            for ( uint64_t i = 0; i < base && !failed(); ++i )
-                d.ck.inc_step();
-            // flags describe the word only, not the way to the base
-            d.ck.cross_up = d.ck.cross_down = d.ck.inc_after_dec = d.ck.full_levels = 0;
-            d.ck.seen_dec = false;
-            if ( !failed())
+            if ( d.ck.restart( base ))
                 d.go( 0, hash_mix( 0x26d, base ));
             stats.evaluations += d.nodes;
             stats.nontrivial += d.nt;
+            stats.per_variant[0] += d.nodes;
+            stats.per_variant_nt[0] += d.nt;
+            d.ck.cleanup();
             if ( failed()) {
                 Case fc = word_case( base, d.word );
                 stats.failc++;
                 write_file( stats.prefix + ".failing.case", to_text( fc, s ) + "# " + fail_msg() + "\n" );
                 fprintf( stderr, "FAIL %s\n", fail_msg().c_str());
-                d.ck.cleanup();
                 return 1;
             }
             stats.pass += d.nodes;
-            d.ck.cleanup();
-            stats.exhaustive_domains.push_back( "all inc/dec words of length <= " + std::to_string( maxlen ) + " starting at count " + std::to_string( base )
-                                                + " that never decrement below 0 (" + std::to_string( d.nodes ) + " words)" );
-            // samples: a few non-trivial words
+            stats.exhaustive_domains.push_back( "all inc/dec words of length <= " + std::to_string( maxlen ) + " applied after inc^" + std::to_string( base )
+                                                + " that never decrement below 0 (" + std::to_string( d.nodes ) + " words), Counter = size_t" );
+            // samples: two non-trivial words of the domain
             {
                 std::vector<int> w;
                 for ( int i = 0; i < maxlen; ++i )
@@ -482,12 +613,13 @@ namespace cdsverif {
                 c.variant = variant;
                 c.prog.resize( 1 );
                 c.prog[0].push_back( Op{ OP_RAMP, k, 16 } );    // up to exactly 2^k
-                c.prog[0].push_back( Op{ OP_RAMP, 0, 0 } );     // down to 0
+                c.prog[0].push_back( Op{ OP_DRAIN, k, 0 } );    // down to 0
                 c.prog[0].push_back( Op{ OP_INC, 0, 0 } );      // and the first slot again
-                Verdict v = kVariants[variant].run( c, true );
-                // every prefix of the ramp is a checked input
-                stats.evaluations += ( uint64_t( 2 ) << k );
-                stats.per_variant[variant] += ( uint64_t( 2 ) << k );
+                Verdict v = kVariants[variant].run( c );
+                // every prefix of the word is a checked input
+                uint64_t words = ( uint64_t( 2 ) << k ) + 1;
+                stats.evaluations += words;
+                stats.per_variant[variant] += words;
                 for ( auto const& kv : v.classes )
                     stats.classes[kv.first] += kv.second;
                 if ( v.kind == V_FAIL ) {
@@ -496,16 +628,16 @@ namespace cdsverif {
                     fprintf( stderr, "FAIL %s\n", v.msg.c_str());
                     return 1;
                 }
-                stats.pass += ( uint64_t( 2 ) << k );
+                stats.pass += words;
                 if ( v.nontrivial ) {
                     stats.nontrivial++;
                     stats.per_variant_nt[variant]++;
-                    stats.nt_hashes.insert( hash_mix( v.trace_hash, 0x72616d70 ));
+                    stats.nt_hashes.insert( v.trace_hash );
                     stats.samples.push_back( to_text( c, s ));
                 }
             }
             stats.exhaustive_domains.push_back( "inc x 2^" + std::to_string( k ) + " then dec x 2^" + std::to_string( k ) + ": every count 0..2^" + std::to_string( k )
-                                                + " in both directions, outstanding set scanned at every full level, Counter = size_t and uint32_t" );
+                                                + " in both directions, outstanding set scanned at every full level on the way up, Counter = size_t and uint32_t" );
             return 0;
         }
         fprintf( stderr, "usage: --extra dyck <maxlen> [<base>] | ramp [<k>]\n" );
